@@ -76,10 +76,14 @@ class TxInput:
         self,
         txid: str,
         txout_index: int,
-        script_sig=Script([]),
+        script_sig=None,
         sequence: str | bytes = DEFAULT_TX_SEQUENCE,
     ) -> None:
         """See TxInput description"""
+
+        # a new empty script per object; a default argument would be shared
+        if script_sig is None:
+            script_sig = Script([])
 
         # expected in the format used for displaying Bitcoin hashes
         self.txid = txid
@@ -193,7 +197,9 @@ class TxInput:
     def copy(cls, txin: "TxInput") -> "TxInput":
         """Deep copy of TxInput"""
 
-        return cls(txin.txid, txin.txout_index, txin.script_sig, txin.sequence)
+        return cls(
+            txin.txid, txin.txout_index, Script.copy(txin.script_sig), txin.sequence
+        )
 
 
 class TxWitnessInput:
@@ -232,7 +238,7 @@ class TxWitnessInput:
     def copy(cls, txwin: "TxWitnessInput") -> "TxWitnessInput":
         """Deep copy of TxWitnessInput"""
 
-        return cls(txwin.stack)
+        return cls(list(txwin.stack))
 
     def __str__(self) -> str:
         return str(
@@ -334,7 +340,7 @@ class TxOutput:
     def copy(cls, txout: "TxOutput") -> "TxOutput":
         """Deep copy of TxOutput"""
 
-        return cls(txout.amount, txout.script_pubkey)
+        return cls(txout.amount, Script.copy(txout.script_pubkey))
 
 
 class Sequence:
